@@ -3,7 +3,7 @@ import EaselModel.Buffer.TotalSetOffset
 namespace EaselModel.Buffer
 
 /-- **One step, contract or not**: from any state related to a specification state, any of the 14 operations that
-    respects the residual duties `CallerOk` yields one of the outcomes of `Total` and a related state again. -/
+    satisfies `CallerOk` yields one of the outcomes of `Total` and a related state again. -/
 theorem step_total (P : Nat) (op : Op) (a : AState) (s : Sess) (r : R P a s) (hs : CallerOk s op) : TStep P a s op := by
   cases op with
   | getLine => exact TStep.of_sim (sim_getLine P a s r trivial)
@@ -21,7 +21,7 @@ theorem step_total (P : Nat) (op : Op) (a : AState) (s : Sess) (r : R P a s) (hs
   | setStableAnchor o => exact total_setStableAnchor P o a s r hs
   | raiseAnchor o => exact TStep.of_sim (sim_raiseAnchor P o a s r trivial)
 
-/-- a history that respects the residual duties at every step of the run of the model -/
+/-- a history that satisfies `CallerOk` at every step of the run of the model -/
 def CallerOkRun : Sess → List Op → Prop
   | _, [] => True
   | s, op :: ops => CallerOk s op ∧ CallerOkRun (s.step op).2 ops
